@@ -3,7 +3,7 @@ property's oracle. `run_replay(rep)` returns a list of violation messages (empty
 import json
 import math
 import sys
-from . import oracle, oracle_text, impl
+from . import oracle, oracle_text, impl, guard
 
 
 def load(path):
@@ -38,6 +38,7 @@ def run_filter_replay(rep, props=None):
     return [x for x in v if x[0] != "SKIP"], res
 
 
+@guard.violation_on_hang(lambda m: [m])
 def run_replay(rep):
     kind = rep.get("kind", "filter")
     if kind == "filter" and rep.get("property") == "C16":
